@@ -203,7 +203,7 @@ def choose(ctx, rnd):
     target = max(len(chosen), 9) if ctx.quick else max(len(chosen), 60)
     pairs_cov = set().union(*[factor_pairs(s) for s in chosen]) if chosen else set()
     while len(chosen) < target and order:             # pairwise cover of the raw scenario attributes
-        cand = order[:400]
+        cand = [s for s in order[:600] if exp[s["id"]][0]["sel"]] or order[:400]     # no more empty selections
         best = max(cand, key=lambda s: len(factor_pairs(s) - pairs_cov))
         chosen.append(best)
         pairs_cov |= factor_pairs(best)
@@ -545,7 +545,8 @@ def run(ctx):
     rnd = common.rng(ctx, "c16")
     # ---------------------------------------------------------------- the model
     with ctx.timed("tlc_model"):
-        for cfg in (["MC_TestRunner_2"] if ctx.quick else ["MC_TestRunner_2", "MC_TestRunner_3"]):
+        # _1 also checks <>(pc = "done") as a temporal property; _2/_3: invariants, deadlock freedom, decreasing measure
+        for cfg in (["MC_TestRunner_1", "MC_TestRunner_2"] if ctx.quick else ["MC_TestRunner_1", "MC_TestRunner_2", "MC_TestRunner_3"]):
             r = common.tlc(ctx, "MC_TestRunner", cfg=cfg, workers=8, timeout=2400, want_tags=(), java_opts="-Xmx12g", quiet=True)
             common.require_tlc_ok(ctx, r, "TestRunner invariants")
         neg = common.tlc(ctx, "MC_TestRunner", cfg="MC_TestRunner_asis", workers=2, timeout=300, want_tags=(), quiet=True)
@@ -640,7 +641,13 @@ def replay(ctx, path):
     if real:
         real["layout"] = [list(g) for g in real["layout"]]
     rnd = common.rng(ctx, "c16-replay")
-    r, ses, fails, harness, obs_v, e = do_scenario(ctx, sc, exps, rnd, 999, real)
+    lock = open(os.path.join(ctx.work, "run.lock"), "w")
+    fcntl.flock(lock, fcntl.LOCK_EX)
+    try:
+        r, ses, fails, harness, obs_v, e = do_scenario(ctx, sc, exps, rnd, 999, real)
+    finally:
+        fcntl.flock(lock, fcntl.LOCK_UN)
+        lock.close()
     print(ses["stdout"])
     print(json.dumps({"cmd": ses["cmd"], "exit": ses["exit"], "begin": ses["begin"], "end": ses["end"], "documented": e}, indent=1))
     pl = payload_of(sc, r, ses, e)
